@@ -8,10 +8,16 @@ RULE = ("correspondence: random operation sequences (pushes incl. forced/dry-mas
         "QueueTank/DecayQueueTank, Arc/PullArc/PushArc, QueueArc/DecayArc and AltQueueArc/DecayArcAlt between tank-backed or scripted (accept all / "
         "part / none, varying per call) neighbours, over random pollutant partitions; the whole observable state after "
         "every operation is compared exactly with the Gallina model. monitors: the C09 clauses evaluated directly on the "
-        "implementation after every operation of fresh sequences. non-trivial = distinct sequence of >= 3 operations")
+        "implementation after every operation of fresh sequences; sewer duo: a real Sewer fed by tagged pushes (pipe_time for default / Sewer tags, pipe_timearea for Land / Demand tags, from the constructor or through apply_overrides) over 4-7 timesteps - what has arrived so far is exactly what was due. non-trivial = distinct sequence of >= 3 operations")
+
+def duo(rep, thorough):
+    # the time-area and pipe-time delays of a real Sewer (constructor values or apply_overrides), over several timesteps
+    import mon_duo
+    return mon_duo.run(rep, thorough, "C09")
+
 
 if __name__ == "__main__":
     sys.exit(comp_check.run("C09", "qtank qarc altarc".split(), RULE,
                             ["exact-rational semantics stands for float semantics up to rounding",
                              "offers are wet (non-negative, pollutant mass only with positive volume); no arc-level force for capacity clauses",
-                             "end nodes respect the reply contract (proved for tank-backed ends)"]))
+                             "end nodes respect the reply contract (proved for tank-backed ends)"], extra=duo))
